@@ -247,6 +247,16 @@ func (fg *FuncGen) trIdent(name string, env *SpecEnv, hint types.Type) Val {
 			fg.specFail(env, "no result %d", i)
 		}
 	}
+	// the hidden index of a range-over-slice loop
+	if name == "rangeindex" && env.loop != nil {
+		for _, in := range env.loop.header.Instrs {
+			if ld, ok := in.(*ssa.UnOp); ok && ld.Op == token.MUL {
+				if a, ok := ld.X.(*ssa.Alloc); ok && a.Comment == "rangeindex" {
+					return Val{T: fg.cellGet(env.st, a), Typ: types.Typ[types.Int]}
+				}
+			}
+		}
+	}
 	// locals of the function under verification
 	if env.fn != nil && env.scopePos.IsValid() {
 		if v, ok := fg.g.lookupLocal(env.fn, env.scopePos, name); ok {
@@ -511,6 +521,14 @@ func (fg *FuncGen) fieldOf(xv Val, name string, env *SpecEnv) Val {
 				return Val{T: fmt.Sprintf("(select %s %s)", fg.get(env.st, fg.fieldComp(stT, i)), xv.T), Typ: ft}
 			}
 		}
+		if ct := fg.structContract(stT); ct != nil {
+			for _, gf := range ct.Ghosts {
+				if gf.Name == name {
+					c := fg.ghostComp(stT, gf, ct)
+					return Val{T: fmt.Sprintf("(select %s %s)", fg.get(env.st, c), xv.T), Typ: c.Typ}
+				}
+			}
+		}
 		fg.specFail(env, "no field %s in %s", name, stT)
 	}
 	if u, ok := t.Underlying().(*types.Struct); ok {
@@ -726,6 +744,8 @@ func (fg *FuncGen) trCall(x *SCall, env *SpecEnv, hint types.Type) Val {
 				f = "fp.to_ubv"
 			}
 			return Val{T: fmt.Sprintf("((_ %s %d) RTZ %s)", f, bits, v.T), Typ: t}
+		case isInt(t) && isFloat(v.Typ):
+			return Val{T: fg.f2iMath(v.T, t), Typ: t}
 		case enc.sortOf(t) == enc.sortOf(v.Typ):
 			return Val{T: v.T, Typ: t}
 		case isIface(t):
